@@ -145,8 +145,44 @@ def run_axis(ctx, classes, ax, seg):
 
     start, stop, step = seg
     if uctl:
+        # the object has a past: the dependent range was resolved under every other unit first, and the
+        # unit under test is selected alternately by assignment and by loading its stored value (set_raw)
         uvt = cls.controllers[uctl].value_type
-        setattr(mod, uctl, getattr(uvt, unit))
+        sc_unit = spec[name].ctl(uctl)
+        for j, other in enumerate(sc_unit.members):
+            if other == unit:
+                continue
+            if j % 2:
+                setattr(mod, uctl, getattr(uvt, other))
+            else:
+                mod.set_raw(uctl, sc_unit.members[other])
+            olo, ohi = spec[name].ctl(cname).ranges.get(other, (0, 0))
+            setattr(mod, cname, ohi)
+            ctl.pattern_value(mod, ohi)
+            mod.get_raw(cname)
+        if (start + len(unit)) % 2:
+            setattr(mod, uctl, getattr(uvt, unit))
+        else:
+            mod.set_raw(uctl, sc_unit.members[unit])
+            ctx.label("unit_selected_by_set_raw")
+    if uctl and start == lo:
+        # right after the unit arrived as a stored value (set_raw, i.e. what loading does) - no assignment
+        # in between - and on a module loaded from a file, the dependent controller is already scaled
+        # by the new unit's range
+        from io import BytesIO
+
+        from rv.api import Synth, read_sunvox_file
+
+        m2 = cls()
+        ctl.pattern_value(m2, 0)
+        m2.get_raw(cname)
+        m2.set_raw(uctl, spec[name].ctl(uctl).members[unit])
+        loaded = read_sunvox_file(BytesIO(Synth(mod).read())).module
+        for who, obj in (("after set_raw of the unit", m2), ("after loading", loaded)):
+            for v, want in ((lo, 0), (hi, 0x8000)):
+                p = ctl.pattern_value(obj, v)
+                ctx.check(p == want, "C10.pattern.unit_switch", "%s %s: pattern_value(%d)=%r, expected %d" % (ent, who, v, p, want), recipe={"entity": ent, "unit": unit, "value": v})
+        ctx.case(4)
     span = hi - lo
     off = lo if (lo < 0 and kind != "no_offset") else 0
     nontrivial = lo < 0 or (32768 % span != 0 if span else True) or kind == "dependent"
